@@ -122,7 +122,7 @@ def _eval_max(prog, f, args, mem):
 
 def rule1(ctx, rep):
     prog = ctx.prog
-    f = prog.func(PRI + '.max')
+    f = prog.nfunc(PRI + '.max')
     rep.analysed(f)
     mem = members(prog)
     with rep.rule(
@@ -160,7 +160,7 @@ def rule1(ctx, rep):
             f'Priority.max disagrees with the lattice on {len(bad)} of {n} tuples, e.g. max{bad[0][0] if bad else ""} = {bad[0][1] if bad else ""} (expected {bad[0][2] if bad else ""})',
         )
         # set_submit_info folds the new priority into the stored one with Priority.max
-        g = prog.func(FSM + '.set_submit_info')
+        g = prog.nfunc(FSM + '.set_submit_info')
         rep.analysed(g)
         cs = calls_to(prog, g, f.qname)
         okc = False
@@ -222,7 +222,7 @@ def _event_ops(f, prog):
 
 def rule2(ctx, rep):
     prog, cg = ctx.prog, ctx.cg
-    f = prog.func(FSM + '.submit_crossroads')
+    f = prog.nfunc(FSM + '.submit_crossroads')
     rep.analysed(f)
     mem = members(prog)
     with rep.rule(
@@ -246,8 +246,8 @@ def rule2(ctx, rep):
                 f'with priority {m} the crossroads calls {got or "nothing"} (expected {want or "nothing"}; calls outside the is_pipeline_active() branch: {inactive})',
             )
         for ev, (poll, source) in POLLER.items():
-            w = prog.func(f'{FSM}.wait_for_{ev}')
-            p = prog.func(f'{FSM}.{poll}')
+            w = prog.nfunc(f'{FSM}.wait_for_{ev}')
+            p = prog.nfunc(f'{FSM}.{poll}')
             rep.analysed(w, p)
             r.instance()
             # the waiter starts its own poller in a thread
@@ -281,12 +281,12 @@ def rule2(ctx, rep):
                 f'{w.qname} performs {ops} on the wait events, expected {want} (arm own wait, cancel every weaker one, leave stronger ones)',
             )
             # waiting_on_<ev> reads its own event, negated
-            q = prog.func(f'{FSM}.waiting_on_{ev}')
+            q = prog.nfunc(f'{FSM}.waiting_on_{ev}')
             r.instance()
             rets = [n for n in q.own_nodes() if isinstance(n, ast.Return)]
             okq = len(rets) == 1 and isinstance(rets[0].value, ast.UnaryOp) and isinstance(rets[0].value.op, ast.Not) and f'self.wait_on_{ev}.wait(' in norm(rets[0].value)
             r.check(okq, f'{q.qname}:reads-own-event', where(q), norm(rets[0].value) if rets else '', f'waiting_on_{ev} is not "not self.wait_on_{ev}.wait(...)"')
-        n = prog.func(FSM + '.wait_for_nothing')
+        n = prog.nfunc(FSM + '.wait_for_nothing')
         rep.analysed(n)
         r.instance()
         ops = _event_ops(n, prog)
@@ -351,10 +351,10 @@ def rule34(ctx, rep):
     )
     with r3, r4:
         for ev in POLLER:
-            w = prog.func(f'{FSM}.wait_for_{ev}')
+            w = prog.nfunc(f'{FSM}.wait_for_{ev}')
             # the success callback registered on the poller's deferred
             cbs = [e for e in cg.callees(w.qname, kinds={'reactor'}) if e.via in ('addCallbacks', 'addCallback', 'addBoth')]
-            dones = [prog.funcs[e.dst] for e in cbs if e.dst in prog.funcs and prog.funcs[e.dst].parent is w]
+            dones = [prog.funcs[e.dst] for e in cbs if e.dst in prog.funcs and prog.funcs[e.dst].parent is not None and prog.funcs[e.dst].parent.qname == w.qname]
             if not dones:
                 raise AnalysisError(f'{w.qname}: no completion callback registered on the poller deferred')
             for d in dones:
@@ -442,7 +442,7 @@ def rule5(ctx, rep):
             'before=reset',
             f'the updating -> loading edge has before={e[0].get("before") if e else None}, expected reset',
         )
-        f = prog.func(FSM + '.reset')
+        f = prog.nfunc(FSM + '.reset')
         rep.analysed(f)
         r.instance()
         ops = _event_ops(f, prog)
@@ -484,7 +484,7 @@ def rule6(ctx, rep):
         breaks='a changeset is accepted while the pipeline is loading/archiving and the trigger raises or corrupts the cycle',
     ) as r:
         for q in ('dawgie.fe.api.submit.Process.step_1', 'dawgie.fe.submit.Process.step_1'):
-            f = prog.func(q)
+            f = prog.nfunc(q)
             rep.analysed(f)
             r.instance()
             g = _Gate(prog, f)
